@@ -92,14 +92,16 @@ fn ran(k: u32, ok: bool) {
     }
     let dseq = c.defer_seq;
     // C13: no critical section that was already active at deferral may still be active
+    // (one critical section per participant: see UserCs)
     for (t, u) in sh.ucs.iter().enumerate() {
-        let live = u.guards.len() - if u.suspended { 1 } else { 0 };
-        if live > 0 && u.cs_start_seq <= dseq {
-            let det = format!(
-                "deferred function {} (deferred at seq {} by t{}) executed at seq {} on t{} while the critical section of t{} that began at seq {} is still active",
-                k, dseq, c.tid, seq, crate::sched::my_tid(), t, u.cs_start_seq
-            );
-            sim().violation("C13", "deferred-ran-inside-older-cs", "deferred-ran-inside-older-cs", &det);
+        for start in u.active_cs_starts() {
+            if start <= dseq {
+                let det = format!(
+                    "deferred function {} (deferred at seq {} by t{}) executed at seq {} on t{} while the critical section of t{} that began at seq {} is still active",
+                    k, dseq, c.tid, seq, crate::sched::my_tid(), t, start
+                );
+                sim().violation("C13", "deferred-ran-inside-older-cs", "deferred-ran-inside-older-cs", &det);
+            }
         }
     }
     if sh.ucs.iter().any(|u| !u.guards.is_empty()) {
